@@ -30,6 +30,7 @@ import (
 	"sync"
 	texttemplate "text/template"
 	"time"
+	"unicode/utf8"
 
 	"github.com/grafana/regexp"
 
@@ -630,9 +631,17 @@ func (s *Server) servePrintErr(w http.ResponseWriter, r *http.Request) error {
 		num = defaultNumResults
 	}
 
-	re, err := syntax.Parse("^"+regexp.QuoteMeta(fileStr)+"$", 0)
-	if err != nil {
-		return err
+	var fileQ query.Q
+	if utf8.ValidString(fileStr) {
+		re, err := syntax.Parse("^"+regexp.QuoteMeta(fileStr)+"$", 0)
+		if err != nil {
+			return err
+		}
+		fileQ = &query.Regexp{Regexp: re, FileName: true, CaseSensitive: true}
+	} else {
+		// File names are byte strings. A regexp cannot spell invalid UTF-8, an
+		// exact file name set can.
+		fileQ = query.NewFileNameSet(fileStr)
 	}
 
 	repoRe, err := regexp.Compile("^" + regexp.QuoteMeta(repoStr) + "$")
@@ -641,7 +650,7 @@ func (s *Server) servePrintErr(w http.ResponseWriter, r *http.Request) error {
 	}
 
 	qs := []query.Q{
-		&query.Regexp{Regexp: re, FileName: true, CaseSensitive: true},
+		fileQ,
 		&query.Repo{Regexp: repoRe},
 	}
 
